@@ -39,6 +39,8 @@ pub const DEFECTS: &[&str] = &[
     "hash_whole_string", "hash_other_alg", "hash_missing", "hash_not_string", "aud_unexpected", "aud_missing", "aud_array_ok",
     "no_policy", "drop_disclosure", "add_disclosure", "dup_disclosure", "reorder_disclosures", "replace_disclosure", "strip_kb",
     "kb_on_unbound", "cnf_not_rsa", "cnf_e_missing", "cnf_n_not_string", "cnf_n_not_base64", "cnf_null",
+    // two conditions together: the verifier was given no key-binding policy AND ...
+    "strip_kb_no_policy", "strip_kb_drop_no_policy", "kb_on_unbound_no_policy",
 ];
 
 pub fn generate(thorough: bool, seed: u64, em: &mut Emitter) {
@@ -64,7 +66,7 @@ pub fn generate(thorough: bool, seed: u64, em: &mut Emitter) {
         let mut tok = ref_issue(r, &claims, &marks, &opts);
         let jwk = crate::keys::rsa_jwk();
         let cnf: Value = match defect {
-            "kb_on_unbound" => Value::Null,
+            "kb_on_unbound" | "kb_on_unbound_no_policy" => Value::Null,
             "cnf_not_rsa" => json!({"kty": "EC", "n": jwk["n"], "e": jwk["e"]}),
             "cnf_e_missing" => json!({"kty": "RSA", "n": jwk["n"]}),
             "cnf_n_not_string" => json!({"kty": "RSA", "n": 5, "e": jwk["e"]}),
@@ -129,6 +131,10 @@ pub fn generate(thorough: bool, seed: u64, em: &mut Emitter) {
                 let p = r.below(presented.len());
                 presented.remove(p);
             }
+            "strip_kb_drop_no_policy" if !presented.is_empty() => {
+                let p = r.below(presented.len());
+                presented.remove(p);
+            }
             "add_disclosure" => {
                 let p = r.below(presented.len() + 1);
                 presented.insert(p, indep::b64url_encode(b"[\"salt\",\"extra\",1]"));
@@ -150,9 +156,9 @@ pub fn generate(thorough: bool, seed: u64, em: &mut Emitter) {
         if defect == "reorder_disclosures" && presented == list {
             continue;
         }
-        let kb_seg = if defect == "strip_kb" { String::new() } else { kb.clone() };
+        let kb_seg = if defect.starts_with("strip_kb") { String::new() } else { kb.clone() };
         let token = presentation_string(&jwt, &presented, &kb_seg);
-        let kbpol = defect != "no_policy";
+        let kbpol = !defect.ends_with("no_policy");
         // ---- oracle tables (independent): is this KB-JWT valid under the cnf key and the policy?
         let kb_header = indep::decode_json(kb.split('.').next().unwrap()).unwrap_or(Value::Null);
         let sig_ok = !other_key && super::present::rsa_verify(&kb, kb_alg);
